@@ -213,7 +213,7 @@ func (h *c03Harness) execConcurrent(line string, w []string) {
 	var nStored, nAbsent atomic.Int64
 	var wg sync.WaitGroup
 	start := make(chan struct{})
-	run := func(f func() string, want string, bad map[string]int, cnt *atomic.Int64) {
+	run := func(f func() string, want string, bad map[string]int, cnt *atomic.Int64, stopOnBad bool) {
 		defer wg.Done()
 		<-start
 		for i := 0; i < iters && !stop.Load(); i++ {
@@ -223,17 +223,19 @@ func (h *c03Harness) execConcurrent(line string, w []string) {
 				mu.Lock()
 				bad[a]++
 				mu.Unlock()
-				stop.Store(true)
+				if stopOnBad {
+					stop.Store(true) // the phase ends with the first object handed out for the absent key
+				}
 			}
 		}
 	}
 	for i := 0; i < n; i++ {
 		wg.Add(1)
-		go run(stored, wantStored, badStored, &nStored)
+		go run(stored, wantStored, badStored, &nStored, false)
 	}
 	for i := 0; i < m; i++ {
 		wg.Add(1)
-		go run(absent, "notfound", badAbsent, &nAbsent)
+		go run(absent, "notfound", badAbsent, &nAbsent, true)
 	}
 	close(start)
 	wg.Wait()
